@@ -4,6 +4,8 @@
 package main
 
 import (
+	"sync/atomic"
+	"encoding/base64"
 	"crypto/sha512"
 	"crypto/x509"
 	"encoding/json"
@@ -18,6 +20,8 @@ import (
 	"github.com/pquerna/otp/totp"
 	"github.com/tstranex/u2f"
 )
+
+var vForgeTurn int64
 
 type vSessWorld struct {
 	w        *vWorld
@@ -220,6 +224,24 @@ func (g *vSessWorld) step(name string, args map[string]interface{}) (vResp, [][]
 	case "U2FBegin":
 		g.cred(&q, args)
 		q.Method, q.Path = "GET", u2fSignRequestPath
+		if vStr(args, "flavour") == "webauthn" {
+			// the same hardware token asked through the WebAuthn login API
+			q.Path = webAuthnAuthBeginPath
+			r = w.Do(q)
+			var opt struct {
+				PublicKey struct {
+					Challenge string `json:"challenge"`
+				} `json:"publicKey"`
+			}
+			if r.Status == 200 && json.Unmarshal(r.Body, &opt) == nil && r.Identity != "" && opt.PublicKey.Challenge != "" {
+				raw, err := base64.RawURLEncoding.DecodeString(strings.TrimRight(opt.PublicKey.Challenge, "="))
+				if err != nil {
+					raw, _ = base64.StdEncoding.DecodeString(opt.PublicKey.Challenge)
+				}
+				g.chalFor[r.Identity] = base64.RawURLEncoding.EncodeToString(raw)
+			}
+			break
+		}
 		r = w.Do(q)
 		var sr u2f.WebSignRequest
 		if r.Status == 200 && json.Unmarshal(r.Body, &sr) == nil && r.Identity != "" {
@@ -232,8 +254,21 @@ func (g *vSessWorld) step(name string, args map[string]interface{}) (vResp, [][]
 		if !ok {
 			ch = "AAAAAAAAAAAAAAAAAAAAAAAAAAAAAAAAAAAAAAAAAAA"
 		}
-		body, _ := json.Marshal(g.tokens[o].signResponse(ch))
-		q.Path, q.RawBody, q.BodyType = u2fSignResponsePath, body, "application/json"
+		// somebody else's token answers: it names ITS key handle, or (every other time) the key handle of the session's
+		// own user - handles are public, only the signature tells the tokens apart
+		handle := g.tokens[o].handle
+		if at, has := g.tokens[actor]; has && o != actor {
+			if atomic.AddInt64(&vForgeTurn, 1)%2 == 0 {
+				handle = at.handle
+				note = "own-handle-foreign-key"
+			}
+		}
+		if vStr(args, "flavour") == "webauthn" {
+			q.Path, q.RawBody, q.BodyType = webAuthnAuthFinishPath, g.tokens[o].webauthnAssertionFor(ch, handle), "application/json"
+		} else {
+			body, _ := json.Marshal(g.tokens[o].signResponseFor(ch, handle))
+			q.Path, q.RawBody, q.BodyType = u2fSignResponsePath, body, "application/json"
+		}
 		r = w.Do(q)
 		if ok {
 			truth = append(truth, []string{o, "u2f"})
